@@ -31,6 +31,44 @@ pub fn assert_bytes_eq(out: &[u8], r: &Buf) {
     assert!(CAP == 48);
 }
 
+/// A sink that keeps the produced bytes *outside* the serialization context, so that the context
+/// (with its string and object tables) can be `mem::forget`-ten instead of dropped: the drop glue
+/// of a non-empty table is one of the things CBMC does not get through (DESIGN §2.4). The sink is
+/// harness machinery; the properties it is used for speak about the bytes, whatever
+/// `BinaryOutput` receives them.
+pub struct Probe {
+    pub buf: *mut [u8; CAP],
+    pub n: *mut usize,
+}
+
+impl desert_core::BinaryOutput for Probe {
+    fn write_u8(&mut self, value: u8) {
+        unsafe {
+            let n = *self.n;
+            assert!(n < CAP, "probe sink overflow");
+            (*self.buf)[n] = value;
+            *self.n = n + 1;
+        }
+    }
+    fn write_bytes(&mut self, bytes: &[u8]) {
+        let mut i = 0;
+        while i < bytes.len() {
+            self.write_u8(bytes[i]);
+            i += 1;
+        }
+    }
+}
+
+/// the first `n` bytes of a probe's store are exactly the reference encoding `r`
+pub fn assert_probe_eq(store: &[u8; CAP], n: usize, r: &Buf) {
+    assert!(n == r.n, "encoded length differs from the reference encoding");
+    unrolled48!(|i: usize| {
+        if i < r.n {
+            assert!(store[i] == r.b[i], "encoded byte differs from the reference encoding");
+        }
+    });
+}
+
 /// Run `f` on one value per shape of `T` (all shapes within `maxv`/`maxs`), payload symbolic.
 /// Straight-line: at most 32 shapes; more is reported as a harness error.
 pub fn for_shapes<T: Model>(maxv: u8, maxs: u8, mut f: impl FnMut(&T)) -> u32 {
